@@ -16,9 +16,20 @@ ASSUMPTIONS = ["sequentially consistent execution between semaphore operations (
                "the mutexes inside PCQueue are never contended under the serialising scheduler; their effect is in the LTS proof"]
 
 
+HANGS = [0]
+
+
 def run_sched(exe, args, choices):
-    p = subprocess.run([exe] + args + [",".join(map(str, choices)) if choices else "-"], stdout=subprocess.PIPE, stderr=subprocess.PIPE,
-                       env=pvlib.san_env(), timeout=120)
+    if HANGS[0] >= 2:
+        return "SKIPPED", [], [], "result skipped after two runs without an answer", ""
+    try:
+        p = subprocess.run([exe] + args + [",".join(map(str, choices)) if choices else "-"], stdout=subprocess.PIPE, stderr=subprocess.PIPE,
+                           env=pvlib.san_env(), timeout=120)
+    except subprocess.TimeoutExpired:
+        HANGS[0] += 1
+        # the controller reports deadlocks and stalls itself; no answer at all means a thread spins without reaching a
+        # scheduling point (a loop that makes no progress)
+        return "HANG", ["STALL"], [], "no result within 120 s (a thread runs forever between two scheduling points)", ""
     out = p.stdout.decode(errors="replace").split("\n")
     trace = out[0].split()[1:] if out and out[0].startswith("trace") else []
     branch = [int(x) for x in out[1].split()[1:]] if len(out) > 1 and out[1].startswith("branch") else []
@@ -47,6 +58,7 @@ def dfs(exe, args, cap):
 
 
 def run(ctx):
+    HANGS[0] = 0
     rng = ctx.rng
     exe = os.path.join(ctx.bdir, "harness", "implsched")
     cap = 150 if ctx.tier == "quick" else 4000
@@ -96,9 +108,11 @@ def run(ctx):
         ctx.count("interleaving", 1, [(kind, tuple(args), tuple(trace))])
         rp = {"scenario": [kind] + args, "choices": ch, "status": rc, "trace": trace[:400], "result": result, "lts": v, "stderr": err,
               "rerun": f"harness/implsched {kind} {' '.join(args)} {','.join(map(str, ch)) if ch else '-'}"}
+        if rc == "SKIPPED":
+            continue
         if "DEADLOCK" in trace or "STALL" in trace:
             pvlib.report_violation(ctx, f"sched-deadlock:{kind}:{' '.join(args)}:{ch}", rp,
-                                   summary=f"{kind} {' '.join(args)}: the real code deadlocks under schedule {ch}")
+                                   summary=f"{kind} {' '.join(args)}: the real code " + ("does not terminate" if rc == "HANG" else "deadlocks") + f" under schedule {ch}" + (f" ({result})" if rc == "HANG" else ""))
         elif rc != 0 or "BROKEN" in result or "DIFFER" in result:
             pvlib.report_violation(ctx, f"sched-result:{kind}:{' '.join(args)}:{ch}", rp,
                                    summary=f"{kind} {' '.join(args)} under schedule {ch}: {result or 'status %s' % rc} {pvlib.san_kind(err.encode()) or ''}")
